@@ -131,9 +131,30 @@ def unsupported_patterns():
     return out
 
 
-def run_pattern(rng, p, mr, supported, b, acc, atom_pass=False):
+# a user-chosen alphabet for `.` and negated classes that is a superset of the default one
+# (Cyrillic and Greek letters added): \d and \w keep their default (ASCII) alphabets
+WIDE_LETTERS = None
+
+
+def wide_letters():
+    global WIDE_LETTERS
+    if WIDE_LETTERS is None:
+        import string
+        WIDE_LETTERS = (string.ascii_letters + string.digits + string.punctuation + " "
+                        + "\u0430\u0431\u044f\u03b1\u03c9\u00e9")
+    return WIDE_LETTERS
+
+
+WIDE_ATOMS = [".", "[^a]", "[^\u0430-\u044f]", "[^a-z\u0430-\u044f]", "[^\u03b1-\u03c9\\d]",
+              "[^\u0430]", "[^ -~]", "[\u0430-\u0432]"]
+# (no negated \w here: the added letters are word characters for `re`, while the generator's own
+# "word" alphabet stays ASCII unless the user widens it too - that would be the user's mismatch)
+
+
+def run_pattern(rng, p, mr, supported, b, acc, atom_pass=False, wide=False):
     """Explores generate(p); returns list of (kind, script, detail)."""
-    gen = RegexGenerator(Random(), max_repeat=mr)
+    gen = (RegexGenerator(Random(), alphabet={"letters": wide_letters()}, max_repeat=mr) if wide
+           else RegexGenerator(Random(), max_repeat=mr))
     rx = re.compile(p)
     found = {}
     D = b["D"] if mr == 32 else b["D_other"]
@@ -204,6 +225,9 @@ def worker(shard, nshards, tier, seed):
     # the same atoms, and every pattern that draws from an alphabet, again after a second
     # generator instance with its own alphabet has been created (run last in every shard, so
     # that all jobs above see a process in which no such instance ever existed)
+    for a in WIDE_ATOMS:
+        jobs.append(("wide", a, 32))
+        jobs.append(("wide", "x" + a + "{2}", 2))
     jobs2 = [("atom2", a, 32) for a in ATOMS]
     jobs2 += [("sup2", p, 32) for p in sup if any(x in p for x in ("\\d", "\\w", "[", "."))]
     mine = [jobs[i] for i in range(shard, len(jobs), nshards)] \
@@ -214,9 +238,10 @@ def worker(shard, nshards, tier, seed):
         acc.count("programs")
         if kind.endswith("2"):
             second_instance()
-        if kind in ("atom", "atom2"):
+        if kind in ("atom", "atom2", "wide"):
             with e2.installed(rng_full):
-                found, info = run_pattern(rng_full, p, mr, True, dict(b, full_cap=5000), acc)
+                found, info = run_pattern(rng_full, p, mr, True, dict(b, full_cap=5000), acc,
+                                          wide=(kind == "wide"))
             acc.count("atom_pass_exhaustive", int(info["exhaustive"]))
         elif kind == "sup2":
             with e2.installed(rng):
@@ -229,7 +254,8 @@ def worker(shard, nshards, tier, seed):
             acc.violation(f"C09|{k}|{shape(p)}|max_repeat={mr}",
                           {"pattern": p, "max_repeat": mr, "supported": kind != "uns",
                            "script": [list(x) for x in script], "detail": detail, "kind": k,
-                           "tier": tier, "seed": seed, "atom_pass": kind.startswith("atom"),
+                           "tier": tier, "seed": seed, "atom_pass": kind.startswith("atom") or kind == "wide",
+                           "wide_alphabet": kind == "wide",
                            "second_instance": kind.endswith("2")})
         if (i * nshards + shard) % 1009 == 0:
             acc.sample({"pattern": p, "max_repeat": mr, "executions": info["executions"],
@@ -267,5 +293,6 @@ def replay(case):
         b = dict(b, D=b["D_other"])
     with e2.installed(rng):
         found, _ = run_pattern(rng, case["pattern"], case["max_repeat"], case["supported"],
-                               dict(b, full_cap=5000) if full else b, acc)
+                               dict(b, full_cap=5000) if full else b, acc,
+                               wide=bool(case.get("wide_alphabet")))
     return [f"C09|{k}|{shape(case['pattern'])}|max_repeat={case['max_repeat']}" for k, _, _ in found]
